@@ -153,3 +153,39 @@ Proof.
   split; [|split; [exact Hj|intro dflt; rewrite Henc; exact Etext]].
   rewrite <- Etext. unfold path_text, part_text. cbn [fst snd]. exact (splits_trans _ _ _ _ _ S1 S2).
 Qed.
+
+(* ---- a plain (single) key, with the exact spans it records ------------------------------------------------ *)
+Lemma key_part_exact i a i1 : key_part i = Ok a i1 ->
+  exists j1 j2 w0 t w, ws_tok w0 /\ simple_key_tok t (k_key a) /\ ws_tok w
+    /\ splits i w0 j1 /\ splits j1 t j2 /\ splits j2 w i1
+    /\ a = mkKey (k_key a) (Some (raw_with_span (pos j1, pos j2))) decor_default
+                 (decor_new (raw_with_span (pos i, pos j1)) (raw_with_span (pos j2, pos i1))).
+Proof.
+  unfold key_part. intro H.
+  apply bind_inv in H as (pre & j1 & H1 & H). apply span_inv in H1 as (w0 & H1 & Epre). apply ws_sound in H1 as (Hw0 & S1 & _).
+  apply bind_inv in H as ([rw k] & j2 & H2 & H). apply simple_key_sound in H2 as (t & Ht & S2 & Erw).
+  apply bind_inv in H as (suf & j3 & H3 & H). apply span_inv in H3 as (w & H3 & Esuf). apply ws_sound in H3 as (Hw & S3 & _).
+  apply ret_inv in H as [-> ->]. exists j1, j2, w0, t, w. cbn [k_key]. subst. auto 10.
+Qed.
+
+Lemma key_single s i kp i' : isrc s i -> key_ i = Ok kp i' -> length kp = 1 ->
+  exists j1 j2 w0 kt w1 k,
+    kp = [k] /\ ws_tok w0 /\ simple_key_tok kt (k_key k) /\ ws_tok w1
+    /\ splits i w0 j1 /\ splits j1 kt j2 /\ splits j2 w1 i'
+    /\ k_repr k = Some (raw_with_span (pos j1, pos j2))
+    /\ k_leaf k = decor_new (raw_with_span (pos i, pos j1)) (raw_with_span (pos j2, pos i')).
+Proof.
+  intros Hi H Hlen. rewrite key_unfold in H. apply bind_inv in H as (path & j & H1 & H).
+  apply try_map_inv in H1 as (path0 & H1 & Hc). unfold key_check in Hc.
+  destruct (check_depth (length path0)); [discriminate|]. injection Hc as ->.
+  apply context_inv in H1. apply (separated1_inv _ _ _ _ _ key_part_shrinking dot_sep_shrinking) in H1 as (a & i1 & l & -> & Ea & R).
+  destruct (fix_key_path (a :: l)) as [p|] eqn:Ef; [|discriminate]. apply ret_inv in H as [-> ->].
+  pose proof (fix_key_path_keys _ _ Ef) as Hk. apply (f_equal (@length bytes)) in Hk. rewrite !map_length, Hlen in Hk.
+  destruct l; [|discriminate Hk]. inversion R as [i0 F|i0 x0 i2 E0 Hlt F|]; subst; clear R.
+  - destruct (key_part_exact i a j Ea) as (j1 & j2 & w0 & t & w & Hw0 & Ht & Hw & S1 & S2 & S3 & Ea').
+    unfold fix_key_path in Ef. rewrite Ea' in Ef. cbn in Ef. injection Ef as <-.
+    exists j1, j2, w0, t, w. eexists. split; [reflexivity|]. cbn [k_key k_repr k_leaf set_leaf]. auto 10.
+  - destruct (key_part_exact i a j Ea) as (j1 & j2 & w0 & t & w & Hw0 & Ht & Hw & S1 & S2 & S3 & Ea').
+    unfold fix_key_path in Ef. rewrite Ea' in Ef. cbn in Ef. injection Ef as <-.
+    exists j1, j2, w0, t, w. eexists. split; [reflexivity|]. cbn [k_key k_repr k_leaf set_leaf]. auto 10.
+Qed.
